@@ -14,7 +14,8 @@ Inductive lcall : Type :=
 | CAppend (l x : value) (sepv : value)
 | CJoin (l1 l2 : value) (sepv brav : value)
 | CIndex (l x : value)
-| CZip (ls : list value).
+| CZip (ls : list value)
+| CEq (a b : value).                        (* a == b *)
 
 Record case := mkCase { c_call : lcall; c_impl : option (list N) }.   (* None: the call failed *)
 
@@ -29,6 +30,7 @@ Definition model_call (c : lcall) : res :=
   | CJoin a b s k => f_join a b s k
   | CIndex l x => f_index l x
   | CZip ls => f_zip ls
+  | CEq a b => ROk (VBool (veq a b))
   end.
 
 Definition spec_call (c : lcall) : option value :=
@@ -42,6 +44,7 @@ Definition spec_call (c : lcall) : option value :=
   | CJoin a b s k => sp_join a b s k
   | CIndex l x => Some (sp_index l x)
   | CZip ls => Some (sp_zip ls)
+  | CEq a b => Some (VBool (sp_equal a b))
   end.
 
 Definition text_of_res (r : res) : option (list N) :=
